@@ -21,13 +21,15 @@ var (
 			"scripted backend's health path to the real agent binary (8 scenarios concurrently); oracle = counter model over the observed "+
 			"check sequence: no pending-list call before the first passing check and one soon after it, exit (non-zero) right after the "+
 			"check completing `threshold` consecutive failures and not before, alive otherwise; non-trivial = sequence with a failure run "+
-			"of length threshold-1 followed by a pass, or a late-healthy prefix; distinct = SHA-256 of the scenario")
+			"of length threshold-1 followed by a pass, or a late-healthy prefix; distinct = SHA-256 of the scenario"+
+			" Later additions: every batch holds a backend that comes up late and fails again (fewer times than the threshold) right after its first pass.")
 	recS = vh.NewRecorder("C20", "shutdown",
 		"signal in {SIGINT,SIGTERM} x grace in {0,1,2,3 s} x phase in {idle, listed-not-fetched, at backend, uploading} x backend latency "+
 			"relative to grace, against the real agent binary (8 scenarios concurrently); oracle: with grace>0 a request already at the "+
 			"backend that finishes 0.5 s before the period ends is uploaded completely, no pending-list call starts after the first list "+
 			"call that returned >=200 ms after the signal, exit in [grace, grace+2 s]; with grace=0 exit within 2 s; non-trivial = signal "+
-			"while a request is at the backend; distinct = SHA-256 of the scenario")
+			"while a request is at the backend; distinct = SHA-256 of the scenario"+
+			" Later additions: phases rotate through every batch; phase \"failing\": list calls answered 500 from shortly before the signal (the signal is sent once two failed calls were seen); a response being uploaded at the signal must complete.")
 )
 
 func TestMain(m *testing.M) { vh.Main(m, recH, recS) }
